@@ -24,6 +24,17 @@ CHECKS["C09"] = dict(
     text="(a) every operation sequence up to depth 5 (7 thorough) on the real Queue, compared step by step with a reference queue (earliest-due-first, soonest-wins, if-missing); (b) every sequence up to depth 5 (6) on the real TaskQueue including the start-up re-queue logic, with 0, 1 and 2 tasks running at restart; (c) world exploration where the daemon dies after claiming a task or with tasks pending, restarts, and must end with nothing stuck in running, all recurring tasks queued and the C01 oracle holding.",
     note=E1_NOTE + " A crash while a task runs is modelled as claim-without-effect + restart; crashes inside a task body belong to C08.")
 
+CHECKS["C02"] = dict(
+    engine="E1", category="model_checking", design="4/C02",
+    technique="explicit-state exploration (fork-checkpointed DFS) of entitlement-change histories on the real code, task-by-task stepping with an invariant after every repository synchronisation, convergence and idempotence oracles after a bounded number of sync rounds",
+    text="Every sequence (up to the completed depth) of entitlement changes at two levels (grow, partial overlap, disjoint, regain), suspend/unsuspend, class-name mapping world, key rolls (thorough) is executed; after each repository sync of a CA its published child certificates must lie within the certificate it holds and every active child's certificate must have been replaced (not dropped); after two top-down sync rounds every child must hold exactly entitlement ∩ issuer with no open request, and a further round must add no command and change no published byte.",
+    note=E1_NOTE)
+CHECKS["C03"] = dict(
+    engine="E1", category="model_checking", design="4/C03",
+    technique="explicit-state exploration (fork-checkpointed DFS) with a path-carried history monitor of every (issuer key, serial) ever accepted by the RP walk; CRL membership checked on every later state",
+    text="Every sequence (up to the completed depth) of removal/replacement operations (ROA/ASPA/BGPsec removal and forced re-issue, child remove/suspend, entitlement loss, key roll, parent removal, CA deletion with children) in worlds with and without class-name mapping and with two parents; every object that stops being current must be gone after the next synchronisation and its serial must be - and stay - on the issuing key's CRL while that key publishes one and the object is unexpired.",
+    note=E1_NOTE)
+
 NOT_YET = {
 }
 
